@@ -119,8 +119,39 @@ func init() {
 			} else {
 				c.user = frameReply(rep)
 			}
+			// every fifth case runs with the package's clock hook (rscp.Now, which stamps frames) far from real time:
+			// deadlines are about real time and must not follow it
+			label := "N deadline"
+			if i%5 == 0 {
+				skew := time.Hour
+				if i%10 == 0 {
+					skew = -time.Hour
+				}
+				rscp.Now = func() time.Time { return time.Now().Add(skew) }
+				label = fmt.Sprintf("N deadline clock-hook=%v", skew)
+			}
 			got := dlRun(ct, st, rt, c)
-			cw.add(fmt.Sprintf("dl %d %d %d | %s", int64(ct), int64(st), int64(rt), c.op()), got, "N deadline", "")
+			rscp.Now = time.Now
+			prop := "pass"
+			if eff, err := rscp.VerifCheckConfig(rscp.ClientConfig{Address: "a", Username: "u", Password: "p", Key: "k", ConnectionTimeout: ct, SendTimeout: st, ReceiveTimeout: rt}); err == nil {
+				if at := strings.Index(got, " : "); at >= 0 {
+					for _, tok := range strings.Fields(got[at+3:]) {
+						var ms int64
+						if (tok[0] == 'R' || tok[0] == 'W') && len(tok) > 1 {
+							if _, err := fmt.Sscan(tok[1:], &ms); err == nil {
+								want := eff.ReceiveTimeout
+								if tok[0] == 'W' {
+									want = eff.SendTimeout
+								}
+								if d := time.Duration(ms)*time.Millisecond - want; d > 30*time.Millisecond || d < -30*time.Millisecond {
+									prop = fmt.Sprintf("FAIL C10 a deadline is set %v ahead, the configured time-out is %v (%s)", time.Duration(ms)*time.Millisecond, want, label)
+								}
+							}
+						}
+					}
+				}
+			}
+			cw.add(fmt.Sprintf("dl %d %d %d | %s", int64(ct), int64(st), int64(rt), c.op()), got, label, prop)
 		}
 	}
 
